@@ -27,6 +27,7 @@
 (*              of the generation counter: the code only ever tests        *)
 (*              gen > last[j], sets last[j] := gen, and increments gen.    *)
 (*      started was_started             depth  waves in the current call   *)
+(*      maxdepth largest depth of any call so far (C19)                    *)
 (*      ord     iteration orders of the pruned dag (see Startup)           *)
 (*      err     "" or the first InternalError / panic site reached         *)
 (*      log     handled signals and state changes of the current call      *)
@@ -43,7 +44,8 @@ Restrict(f, S) == [x \in DOMAIN f \cap S |-> f[x]]
 
 Err(e, m) == IF e.err # "" THEN e ELSE [e EXCEPT !.err = m]
 
-DepthLimit(c) == (IF "dbase" \in DOMAIN c THEN c.dbase ELSE 1500) + 10 * Len(c.nodes)
+DepthLimit(c) == (IF "dbase" \in DOMAIN c THEN c.dbase ELSE 1500)
+                 + (IF "dper" \in DOMAIN c THEN c.dper ELSE 10) * Len(c.nodes)
 
 UpsOf(e, j) == e.ord.up[j]
 DownsOf(e, j) == e.ord.dn[j]
@@ -350,7 +352,8 @@ HandleOne(c, e0) ==
      ELSE IF h.newq = <<>> THEN [h EXCEPT !.ignore = {}]
      ELSE IF h.depth + 1 > DepthLimit(c)
           THEN Err(h, "internal:Depth ConsiderJob loop")
-          ELSE [h EXCEPT !.sigq = h.newq, !.newq = <<>>, !.ignore = {}, !.depth = @ + 1]
+          ELSE [h EXCEPT !.sigq = h.newq, !.newq = <<>>, !.ignore = {}, !.depth = @ + 1,
+                         !.maxdepth = IF h.depth + 1 > @ THEN h.depth + 1 ELSE @]
 
 RECURSIVE Quiesce(_, _)
 Quiesce(c, e) ==
@@ -375,7 +378,7 @@ EInit(c) ==
   [phase |-> "NotStarted", jst |-> InitJst(c), hout |-> <<>>,
    ereq |-> <<>>, einv |-> <<>>, ready |-> {}, cleanup |-> {},
    sigq |-> <<>>, newq |-> <<>>, ignore |-> {}, cgen |-> Nodes(c), started |-> {},
-   ord |-> <<>>, depth |-> 0, err |-> "", log |-> <<>>]
+   ord |-> <<>>, depth |-> 0, maxdepth |-> 0, err |-> "", log |-> <<>>]
 
 DagEdges(c) == {x \in Edges(c) : x[1] \notin LeafySet(c) /\ x[2] \notin LeafySet(c)}
 
@@ -545,7 +548,8 @@ NewHistory(c, e) ==
 FromObs(c, s, ord) ==
   [phase |-> s.phase, jst |-> s.jst, hout |-> s.outs, ereq |-> s.ereq, einv |-> s.einv,
    ready |-> s.ready, cleanup |-> s.cleanup, sigq |-> <<>>, newq |-> <<>>, ignore |-> {},
-   cgen |-> s.cgen, started |-> s.started, ord |-> ord, depth |-> 0, err |-> "", log |-> <<>>]
+   cgen |-> s.cgen, started |-> s.estarted, ord |-> ord, depth |-> 0, maxdepth |-> 0, err |-> "",
+   log |-> <<>>]
 
 SameFn(f, g) == DOMAIN f = DOMAIN g /\ \A k \in DOMAIN f : f[k] = g[k]
 
@@ -560,7 +564,7 @@ Diff(e, s) ==
        [] f = "ready" -> e.ready # s.ready
        [] f = "cleanup" -> e.cleanup # s.cleanup
        [] f = "cgen" -> e.cgen # s.cgen
-       [] f = "started" -> e.started # s.started}
+       [] f = "started" -> e.started # s.estarted}
 
 SigLog(log) == SelectSeq(log, LAMBDA x : x[1] = "sig")
 =============================================================================
